@@ -64,7 +64,7 @@ theorem J_step (r : RState) (o : ROp) (hJ : J r) (h : r.altActive = false ∨ o 
     · exact hJ
     · exact fun _ => rfl
   | stop => exact fun _ => rfl
-  | kill => exact hJ
+  | kill => exact fun _ => rfl
   | title s => exact hJ
   | showCursor => exact hJ
   | hideCursor => exact hJ
@@ -138,7 +138,7 @@ theorem J_inline_step (r : RState) (o : ROp) (hJ : r.altActive = false → J r) 
   | clearScreen => exact fun _ _ => rfl
   | stop => exact fun _ _ => rfl
   | write s => exact fun h' => hJ h'
-  | kill => exact fun h' => hJ h'
+  | kill => exact fun _ _ => rfl
   | title s => exact fun h' => hJ h'
   | showCursor => exact fun h' => hJ h'
   | hideCursor => exact fun h' => hJ h'
